@@ -234,7 +234,7 @@ func c19CleanEnv(extra ...string) []string {
 func TestVerifC19Binary(t *testing.T) {
 	rep := kit.NewReport("C19", "binary")
 	defer rep.Write()
-	rep.SetRule("the real liftbridge binary (go build of $VERIF_REPO's main package) runs under `strace -f -e trace=connect` against a NATS server started by the harness; routes: telemetry.enabled: false in a config file; LIFTBRIDGE_TELEMETRY_ENABLED=false with a config file; the same with flags only (no config file); next to the opt-out the reporting interval is left unset or set to a positive value, 0 or a negative value (in the file resp. through LIFTBRIDGE_TELEMETRY_INTERVAL_SECONDS), rotating over routes and rounds; positive controls with telemetry on (defaults without proxy => resolver connect to port 53; config file + HTTPS_PROXY => CONNECT at the harness listener).  The binary is used over gRPC (stream with needle name, publishes), then stopped with SIGINT.  Oracle on the complete trace of an opt-out run: no connect() except unix sockets and loopback connections other than DNS / the proxy, and the proxy listener saw nothing.  non-trivial = binary served gRPC, exited 0 after SIGINT and the trace was parsed; distinct = route x proxy x round")
+	rep.SetRule("the real liftbridge binary (go build of $VERIF_REPO's main package) runs under `strace -f -e trace=connect` against a NATS server started by the harness; routes: telemetry.enabled: <off> in a config file; LIFTBRIDGE_TELEMETRY_ENABLED=<off> with a config file; the same with flags only (no config file); <off> = the documented `false` in one of the first two rounds of every route, otherwise the next entry of a seeded rotation over the other spellings of 'off' (false literals of strconv.ParseBool / YAML 1.1 booleans, bare and quoted, the word `disabled`; classes alternate, a YAML-1.1 literal such as no/off first); next to the opt-out the reporting interval is left unset or set to a positive value, 0 or a negative value (in the file resp. through LIFTBRIDGE_TELEMETRY_INTERVAL_SECONDS), rotating over routes and rounds; positive controls with telemetry on (defaults without proxy => resolver connect to port 53; config file + HTTPS_PROXY => CONNECT at the harness listener).  The binary is used over gRPC (stream with needle name, publishes), then stopped with SIGINT.  Oracle on the complete trace of an opt-out run: no connect() except unix sockets and loopback connections other than DNS / the proxy, and the proxy listener saw nothing.  non-trivial = binary served gRPC, exited 0 after SIGINT and the trace was parsed; distinct = route x proxy x interval class x spelling class x round")
 	rep.Assume("the sandbox has no network: a telemetry attempt is visible as the resolver's connect() to port 53 (nameserver 127.0.0.1) or as a connect() to the HTTPS_PROXY listener; if neither positive control shows an attempt the unit is inconclusive and the in-process unit alone decides")
 	rep.Assume("main.go has no command-line flag for telemetry; the programmatic route is covered by the in-process unit")
 	work := os.Getenv("VERIF_WORK")
@@ -286,6 +286,33 @@ func TestVerifC19Binary(t *testing.T) {
 	}
 	rounds := kit.Scale(2, 20)
 	base := kit.Mix(kit.Seed(), 0xC19B)
+	// how the opt-out is spelled rotates over routes and rounds (see
+	// c19_spelling_test.go): every route sees the documented `false` in one of
+	// the first two rounds and members of the other classes otherwise
+	fileRot := c19SpellingRotation(kit.NewRNG(kit.Mix(base, 0xF11E)), c19FileSpellings)
+	envRot := c19SpellingRotation(kit.NewRNG(kit.Mix(base, 0xE7)), c19EnvSpellings)
+	spellingFor := func(name string, round int) c19Spelling {
+		switch name {
+		case "off-config-file":
+			return fileRot[(2*round)%len(fileRot)]
+		case "off-config-file-noproxy":
+			if round == 0 {
+				return c19Documented
+			}
+			return fileRot[(2*round-1)%len(fileRot)]
+		case "off-env-with-config-file":
+			if round == 0 {
+				return c19Documented
+			}
+			return envRot[(2*round-1)%len(envRot)]
+		case "off-env-no-config-file":
+			if round == 1 {
+				return c19Documented
+			}
+			return envRot[(2*round)%len(envRot)]
+		}
+		return c19Documented
+	}
 	type result struct {
 		cs       c19BinCase
 		round    int
@@ -361,9 +388,13 @@ func TestVerifC19Binary(t *testing.T) {
 			replay["interval_class"] = ivClass
 			replay["interval_seconds"] = ivVal
 		}
+		sp := spellingFor(cs.Name, round)
+		if cs.Expect == "zero" {
+			replay["optout_spelling"] = sp
+		}
 		switch cs.Route {
 		case "config-file":
-			replay["config_file"] = yaml("telemetry:\n  enabled: false\n" + ivLine)
+			replay["config_file"] = yaml("telemetry:\n  enabled: " + sp.Text + "\n" + ivLine)
 			args = []string{"--config", file}
 		case "env-var:with-config-file":
 			if ivLine != "" {
@@ -371,10 +402,10 @@ func TestVerifC19Binary(t *testing.T) {
 			} else {
 				replay["config_file"] = yaml("")
 			}
-			env = append(env, c19EnvVar+"=false")
+			env = append(env, c19EnvVar+"="+sp.Text)
 			args = []string{"--config", file}
 		case "env-var:no-config-file":
-			env = append(env, c19EnvVar+"=false")
+			env = append(env, c19EnvVar+"="+sp.Text)
 			if ivClass != "unset" {
 				env = append(env, fmt.Sprintf("LIFTBRIDGE_TELEMETRY_INTERVAL_SECONDS=%d", ivVal))
 			}
@@ -562,7 +593,10 @@ func TestVerifC19Binary(t *testing.T) {
 		mu.Unlock()
 		rep.Count("binary_runs_completed", 1)
 		rep.Count("binary_runs_interval_"+ivClass, 1)
-		rep.Nontrivial(fmt.Sprintf("%s|proxy=%v|interval=%s|round%d", cs.Route, cs.Proxy, ivClass, round))
+		if cs.Expect == "zero" {
+			rep.Count("binary_runs_spelling_"+sp.Class, 1)
+		}
+		rep.Nontrivial(fmt.Sprintf("%s|proxy=%v|interval=%s|spelling=%s|round%d", cs.Route, cs.Proxy, ivClass, sp.Class, round))
 		os.RemoveAll(cdir)
 	})
 
@@ -603,12 +637,20 @@ func TestVerifC19Binary(t *testing.T) {
 			} else {
 				first = "proxy: " + r.proxy[0]
 			}
+			sp, _ := r.replay["optout_spelling"].(c19Spelling)
 			fp := "C19:telemetry-sent-while-disabled:" + r.cs.Route
+			inproc := map[string]string{"config-file": "config-file-nested"}[r.cs.Route]
+			if inproc == "" {
+				inproc = r.cs.Route
+			}
+			if c19SpellingIneffective(inproc, sp) {
+				fp += c19SpellingSuffix(sp)
+			}
 			if c, _ := r.replay["interval_class"].(string); c == "zero" || c == "negative" {
 				fp += ":interval-" + c
 			}
 			rep.Violation(fp,
-				fmt.Sprintf("real binary, telemetry switched off through route %q (reporting interval: %v): the trace shows an outbound connection attempt (%s)", r.cs.Route, c19OrUnset(r.replay["interval_seconds"]), first), r.replay)
+				fmt.Sprintf("real binary, telemetry switched off through route %q (opt-out value written as %s; reporting interval: %v): the trace shows an outbound connection attempt (%s)", r.cs.Route, sp.Text, c19OrUnset(r.replay["interval_seconds"]), first), r.replay)
 			continue
 		}
 		if !observerLive {
